@@ -13,6 +13,7 @@ tools/rs2lean_fn.py — regenerates Lean definitions from the SOURCE TEXT of sel
   fn:homcalc  /repo/yui-homology/src/utils/homology_calc.rs        -> lean/Yuiv/Gen/HomCalcFn.lean  (Props/C07Gen.lean)
   fn:triang   /repo/yui-matrix/src/sparse/triang.rs                -> lean/Yuiv/Gen/TriangFn.lean   (Props/C12Gen.lean)
   fn:spmat    /repo/yui-matrix/src/sparse/sp_mat.rs                -> lean/Yuiv/Gen/SpMatFn.lean    (Props/C13Gen.lean)
+  fn:trans    /repo/yui-matrix/src/sparse/trans.rs                 -> lean/Yuiv/Gen/TransFn.lean    (Props/C13GenT.lean)
 
 Additions for fn:misc / fn:snf (see the target entries in TARGETS and Yuiv/Model/RustIter.lean, RustDense.lean):
 free functions of a file (`free_fns`), closures as auxiliary definitions (captured variables become parameters),
@@ -82,7 +83,7 @@ Semantics emitted
     on fuel (`Res.err` when it runs out): the constant `loopFuel`, or — target option `fuel_param` — an explicit first
     argument `fuel` of every function that (transitively) contains a loop.
 
-Usage: rs2lean_fn.py [fn:bitseq|fn:ratio|fn:intext|fn:qint|fn:ff|fn:misc|fn:snf|fn:lll|fn:homcalc|fn:triang|fn:spmat]... [--src FILE]... [--out FILE]   (none = all)
+Usage: rs2lean_fn.py [fn:bitseq|fn:ratio|fn:intext|fn:qint|fn:ff|fn:misc|fn:snf|fn:lll|fn:homcalc|fn:triang|fn:spmat|fn:trans]... [--src FILE]... [--out FILE]   (none = all)
   `--src` (once per source file of the target, in its order) and `--out` need exactly one target.
 Exit status 0: every selected generated file is up to date or was rewritten; 1: for some target something in a
 REQUIRED function (or in the item structure) is outside the subset — `rs2lean_fn: cannot translate: <what>` is printed
@@ -279,6 +280,24 @@ TARGETS = {
         required=_req("SpMat", ("extract", "permute", "permute_rows", "permute_cols", "submat", "submat_rows",
                                 "submat_cols", "from_entries", "combine_blocks", "concat", "stack", "extend_cols",
                                 "from_col_vecs", "divide4", "from_row_perm", "from_col_perm"))),
+    "trans": dict(
+        src="/repo/yui-matrix/src/sparse/trans.rs", out="TransFn.lean", ns="Yuiv.GenTrans", scalar="K13",
+        macros=False, fuel_param=True, nat_usize=True, sp13=True, no_derive=True, soft_params=True,
+        scalar_sig="{R : Type} [Zero R] [One R] [Add R] [Mul R] [Neg R] [DecidableEq R]", struct_params="(R : Type)",
+        forlist_fn="Sp.forList", enumerate_fn="Sp.enumerate",
+        imports=["Yuiv.Model.Res", "Yuiv.Model.RustArith", "Yuiv.Model.RustRing", "Yuiv.Model.RustIter",
+                 "Yuiv.Model.RustDense", "Yuiv.Model.RustSp"],
+        blurb=["The methods of `impl Trans<R>` (yui-matrix/src/sparse/trans.rs): a composable pair of coordinate maps kept as",
+               "lists of factors (`forward = f_k ∘ … ∘ f_0`, `backward = b_0 ∘ … ∘ b_k`).",
+               "`R` is a type with `[Zero R] [One R] [Add R] [Mul R] [Neg R] [DecidableEq R]`; `struct Trans<R>` is the generated",
+               "structure `TransS R`; `SpMat<R>` / `SpVec<R>` / `PermView` are the model's `C13.SpMat R` / `C13.SpVec R` /",
+               "`C13.Perm`, `Vec<T>` a list; the functions of other files it calls (`SpMat::{id, from_entries, from_row_perm,",
+               "from_col_perm}`, the products `&SpMat * &SpMat`, `&SpMat * SpVec`) are those of the hand model through",
+               "Yuiv/Model/RustSp.lean (`from_entries`, `from_row_perm`, `from_col_perm` are tied to sp_mat.rs by fn:spmat);",
+               "`&mut self` methods return the new struct; panics are `Res.panic`.",
+               "`Yuiv/Props/C13GenT.lean` proves them equal to the hand-written model `C13.Trans.*` (`Yuiv/Model/C13.lean`)."],
+        required=_req("Trans", ("id", "zero", "new", "src_dim", "tgt_dim", "is_id", "forward", "backward", "append",
+                                "append_perm", "merge", "merged", "forward_mat", "backward_mat", "reduce", "sub"))),
     "intext": dict(
         src=["/repo/yui/src/misc/int_ext.rs", "/repo/yui/src/abst/euc_ring.rs"], out="IntExtFn.lean",
         ns="Yuiv.GenIntExt", scalar="Z", macros=True, fuel_param=True,
@@ -1107,6 +1126,7 @@ class Fn:
         self.assoc = {}              # associated types of the impl
         self.order = 0
         self.mutparams = []          # names of the `&mut` parameters
+        self.mutbinds = []           # names of the by-value parameters bound with `mut`
         self.generic_is_mut = False  # the only reason in self.generic is a `&mut` parameter
 
     @property
@@ -1393,7 +1413,11 @@ def parse_fn(p, tyname, trait, assoc, itps, ibounds, generic):
         elif p.at("mut") and p.at("self", 1):
             p.next(); p.next(); f.selfk = "val"; f.generic = f.generic or "`mut self` receiver"; f.generic_is_mut = False
         else:
-            if p.eat("mut"): f.generic = f.generic or "`mut` parameter binding"; f.generic_is_mut = False
+            if p.eat("mut"):
+                if f.generic is None and not f.mutparams and not f.mutbinds: f.generic_is_mut = True
+                elif not f.generic_is_mut: pass
+                f.generic = f.generic or "`mut` parameter binding"
+                f.mutbinds.append(p.peek().val)
             nm = p.ident(); p.expect(":")
             if p.at("&") and p.at("mut", 1):
                 if f.generic is None and not f.mutparams: f.generic_is_mut = True
@@ -1692,6 +1716,7 @@ class Translator:
         if t == "()": return "Unit"
         if t == "Ordering": return "Ordering"
         if t in self.mod.enums: return t
+        if t in self.mod.structs and self.cfg.get("struct_params"): return f"({t}S R)"
         if t in self.mod.structs: return t + "S"
         m = re.fullmatch(r"Option<(.*)>", t)
         if m: return f"(Option {self.lean_ty(m.group(1))})"
@@ -1778,6 +1803,8 @@ class Translator:
                 if want is None or have != want:
                     raise Unsupported(f"type `{t}` in a function whose const argument is {want}")
             if (self.scalar or not args) and all(a == "Z" for a in args):
+                return m.group(1)
+            if self.cfg.get("struct_params") and all(a == self.scalar for a in args):
                 return m.group(1)
             raise Unsupported(f"type `{t}`")
         if t.startswith("Self::") and t[6:] in fn.assoc: return self.norm_ty(fn.assoc[t[6:]], fn)
@@ -1888,7 +1915,8 @@ class Translator:
         return r
 
     def translate_fn(self, f):
-        if f.generic and not (f.generic_is_mut and self.cfg.get("mut_params")): raise Unsupported(f.generic)
+        if f.generic and not (f.generic_is_mut and (self.cfg.get("mut_params") or not f.mutparams) and
+                              (self.cfg.get("soft_params") or not f.mutbinds)): raise Unsupported(f.generic)
         if f.ty not in self.types and not getattr(f, "is_trait_default", False) and f.ty not in self.newtypes and \
                 not getattr(f, "is_free", False) and f.ty not in self.cfg.get("scalar_types", []):
             raise Unsupported(f"impl for unknown type {f.ty}")
@@ -1914,7 +1942,7 @@ class Translator:
         for nm, t in f.params:
             t = self.norm_ty(t, f)
             ln = self.ident(nm)
-            env[nm] = (ln, t, nm in f.mutparams)
+            env[nm] = (ln, t, nm in f.mutparams or nm in f.mutbinds)
             params.append((ln, self.lean_ty(t)))
         body = Parser(list(f.toks), f.body[0], f.body[1]).block()
         self.register_locals(f, body)
@@ -2049,7 +2077,7 @@ class Translator:
         if self.scalar == "S" and scal:
             parts = ["{α : Type} [C12.Scal α]"] + parts
         if self.scalar == "K13" and scal:
-            parts = ["{R : Type} [Zero R] [One R] [Add R] [DecidableEq R]"] + parts
+            parts = [self.cfg.get("scalar_sig", "{R : Type} [Zero R] [One R] [Add R] [DecidableEq R]")] + parts
         if self.cfg.get("eops"):
             parts = ["{α : Type} {m n : Nat} (e : C09.EOps α)"] + (["(dbg : Bool)"] if self.cfg.get("dbg_param") else []) + parts
         self.gsig = " ".join(parts)
@@ -2611,6 +2639,27 @@ class Translator:
             return r.segs[0]
         return None
 
+    def vec_field_place(self, recv, env):
+        """`x.f` with x a mutable struct variable and f a field of list type: (root, field, field type) or None"""
+        r = recv
+        while r.kind == "paren": r = r.e
+        if r.kind == "field" and r.e.kind == "path" and len(r.e.segs) == 1 and r.e.segs[0] in env and env[r.e.segs[0]][2] \
+                and env[r.e.segs[0]][1] in self.mod.structs:
+            try:
+                fty = self.field_ty(env[r.e.segs[0]][1], r.name, 0)
+            except Unsupported:
+                return None
+            if fty.startswith("List<"): return r.e.segs[0], r.name, fty
+        return None
+
+    def field_nodes(self, nodes):
+        out = []
+
+        def f_(n):
+            if n.kind == "field": out.append(n)
+        self.walk(nodes, f_)
+        return out
+
     def tr_vec_stmt(self, e, env):
         """`v.push(x)`, `v.reverse()` on a list variable; `it.for_each(|p| body)` as a `for` loop"""
         if e.name == "push" and len(e.args) == 3 and self.cfg.get("sp13"):
@@ -2624,6 +2673,29 @@ class Translator:
                     if not self.compat(want, ty): raise Unsupported(f"`CooMatrix::push` argument of type {ty} (line {e.line})")
                     its += i2; ts.append(t)
                 return its + [("bind", ln, " ".join(["Sp.Coo.push", ln] + ts))]
+        fp = self.vec_field_place(e.recv, env) if self.cfg.get("sp13") else None
+        if fp is not None and e.name in ("push", "append", "clear"):
+            root, field, fty = fp
+            ln = env[root][0]
+            if e.name == "clear" and not e.args:
+                return [("let", ln, f"{{ {ln} with {field} := [] }}")]
+            if e.name == "push" and len(e.args) == 1:
+                its, t, tx = self.tr(e.args[0], env)
+                if not self.compat(fty[5:-1], tx): raise Unsupported(f"`push` of {tx} onto a vector of {fty[5:-1]} (line {e.line})")
+                return its + [("let", ln, f"{{ {ln} with {field} := {ln}.{field} ++ [{unpar(t)}] }}")]
+            if e.name == "append" and len(e.args) == 1:
+                a = e.args[0]
+                while a.kind == "paren": a = a.e
+                if a.kind == "un" and a.op == "&mut": a = a.e
+                src = self.vec_field_place(a, env)
+                if src is None: raise Unsupported(f"`append` of this form (line {e.line})")
+                rest = self.cur_rest
+                if rest is None or any(self.vec_field_place(n_, env) == src for n_ in self.field_nodes(list(rest[0]) + [rest[1]])):
+                    raise Unsupported(f"`{src[0]}.{src[1]}` is used after `append` emptied it (line {e.line})")
+                if not self.compat(fty, src[2]): raise Unsupported(f"`append` of {src[2]} onto {fty} (line {e.line})")
+                sl = env[src[0]][0]
+                return [("let", ln, f"{{ {ln} with {field} := {ln}.{field} ++ {sl}.{src[1]} }}")]
+            return None
         if e.name in ("append", "extend") and len(e.args) == 1 and self.cfg.get("sp13"):
             root = self.vec_place(e.recv, env)
             if root is None: return None
@@ -3033,6 +3105,10 @@ class Translator:
                 if t in self.mod.stparams.get(sty, []):
                     if self.scalar: return "Z"
                     raise Unsupported(f"field {field} of generic type {t}")
+                if self.cfg.get("struct_params"):
+                    for tp in self.mod.stparams.get(sty, []):
+                        t = re.sub(r"(?<![\w])" + re.escape(tp) + r"(?![\w])", self.scalar, t)
+                    return self.norm_ty(t, self.cur)
                 return t
         raise Unsupported(f"unknown field `.{field}` (line {line})")
 
@@ -3307,6 +3383,12 @@ class Translator:
                 while r.kind == "paren": r = r.e
                 if r.kind == "path" and len(r.segs) == 1 and r.segs[0] in env and r.segs[0] not in local:
                     found.add(r.segs[0])
+            if n.kind == "mcall" and n.name in ("push", "append", "clear") and self.cfg.get("sp13"):
+                r = n.recv
+                while r.kind == "paren": r = r.e
+                if r.kind == "field" and r.e.kind == "path" and len(r.e.segs) == 1 and r.e.segs[0] in env and \
+                        r.e.segs[0] not in local and env[r.e.segs[0]][2]:
+                    found.add(r.e.segs[0])
             if n.kind == "colswap":
                 try:
                     root, _ = self.place(n.place, {k: (k, None, True) for k in list(env) + list(local)})
@@ -3531,6 +3613,11 @@ class Translator:
                 if ta not in INT64: raise Unsupported(f"vector index of type {ta} (line {line})")
                 r = self.fresh()
                 return its + i2 + [("bind", r, f"LVec.get {t} {a}")], r, "Z"
+            if resolve_ty(ty).startswith("List<") and self.cfg.get("sp13"):
+                i2, a, ta = self.tr(ix, env)
+                if ta not in INT64: raise Unsupported(f"vector index of type {ta} (line {line})")
+                r = self.fresh()
+                return its + i2 + [("bind", r, f"Sp.list_get {t} {a}")], r, resolve_ty(ty)[5:-1]
             if ty == "VS":
                 i2, a, ta = self.tr(ix, env)
                 if ta not in INT64: raise Unsupported(f"vector index of type {ta} (line {line})")
@@ -3763,6 +3850,9 @@ class Translator:
                 i3, t, ty = self.call_user_terms(c[0], [a, b], line)
                 return i1 + i2 + i3, t, ty
             raise Unsupported(f"`{op}` on {ta}, {tb} (line {line})")
+        if op == "*" and ta == "PM" and tb in ("PM", "PV"):
+            r = self.fresh()
+            return i1 + i2 + [("bind", r, f"{'C13.SpMat.mul' if tb == 'PM' else 'C13.SpMat.mulVec'} {a} {b}")], r, tb
         if ta == "HM" and tb == "HM" and op == "*":
             r = self.fresh()
             return i1 + i2 + [("bind", r, f"HMat.mul {a} {b}")], r, "HM"
@@ -3971,7 +4061,7 @@ class Translator:
             its += i2; given[fn_] = t
         if set(given) != {f for f, _ in decl}: raise Unsupported(f"struct literal does not give all fields (line {e.line})")
         body = ", ".join(f"{self.field_name(f)} := {unpar(given[f])}" for f, _ in decl)
-        return its, f"({{ {body} }} : {name}S)", name
+        return its, f"({{ {body} }} : {name}S{' R' if self.cfg.get('struct_params') else ''})", name
 
     def tr_macro(self, e, env):
         nm, line = e.name, e.line
@@ -4215,19 +4305,37 @@ class Translator:
                  ("CscMatrix", "try_from_csc_data"): ("Sp.try_from_csc_data", ["usize", "usize", "List<usize>", "List<usize>", "List<K13>"],
                                                       "Option<PM>", False),
                  ("PermView", "identity"): ("C13.Perm.identity", ["usize"], "PP", False),
-                 ("SpMat", "zero"): ("Sp.zero", ["(usize,usize)"], "PM", False)}
+                 ("SpMat", "zero"): ("Sp.zero", ["(usize,usize)"], "PM", False),
+                 ("SpMat", "id"): ("C13.SpMat.id", ["usize"], "PM", False),
+                 ("SpMat", "from_entries"): ("C13.fromEntries", ["usize", "usize", "List<(usize,usize,K13)>"], "PM", True),
+                 ("SpMat", "from_row_perm"): ("C13.fromRowPerm", ["PP"], "PM", True),
+                 ("SpMat", "from_col_perm"): ("C13.fromColPerm", ["PP"], "PM", True)}
+        if key == ("SpMat", "from_entries") and len(e.args) == 2 and "SpMat" not in self.newtypes:
+            sh = e.args[0]
+            while sh.kind == "paren": sh = sh.e
+            if sh.kind == "tuple" and len(sh.es) == 2:
+                e = N("call", path=e.path, args=[sh.es[0], sh.es[1], e.args[1]], line=line)
         if key == ("SpMat", "from") and len(e.args) == 1:
             its, t, ty = self.tr(e.args[0], env)
             if ty == "PM": return its, t, "PM"                    # `From<CscMatrix<R>>`: the wrapper
         if key in table and not (key[0] == "SpMat" and self.find_fn("SpMat", key[1]) is not None and key[1] != "zero"):
             fn_, ptys, rty, mon = table[key]
+            if mon and len(ptys) == len(e.args):
+                its, ts = [], []
+                for a, pt in zip(e.args, ptys):
+                    i2, t, ty = self.tr(a, env)
+                    if ty == "int": ty = "usize"
+                    if not self.compat(pt, resolve_ty(ty)): raise Unsupported(f"argument of type {ty} for `{'::'.join(segs)}` ({pt} expected) (line {line})")
+                    its += i2; ts.append(t)
+                r = self.fresh()
+                return its + [("bind", r, " ".join([fn_] + ts))], r, rty
             if len(ptys) != len(e.args): return None
             its, ts = [], []
             for a, pt in zip(e.args, ptys):
                 i2, t, ty = self.tr(a, env)
                 if not self.compat(pt, resolve_ty(ty)): raise Unsupported(f"argument of type {ty} for `{'::'.join(segs)}` ({pt} expected) (line {line})")
                 its += i2; ts.append(t)
-            if fn_ in ("C13.SpMat.zero", "Sp.zero"):
+            if fn_ in ("C13.SpMat.zero", "Sp.zero", "C13.SpMat.id"):
                 return its, "(" + " ".join([fn_] + ts) + " : C13.SpMat R)", rty
             return its, "(" + " ".join([fn_] + ts) + ")", rty
         return None
@@ -4248,6 +4356,7 @@ class Translator:
                 if name == "shape": return i1, f"(Sp.shape {recv})", "(usize,usize)"
                 if name == "iter": return i1, f"(Sp.iter {recv})", "List<(usize,usize,K13)>"
                 if name == "nnz": return i1, f"(Sp.nnz {recv})", "usize"
+                if name == "is_id" and owner is None: return i1, f"(Sp.is_id {recv})", "bool"
                 if name == "disassemble": return i1, f"(Sp.disassemble {recv})", "(List<usize>,List<usize>,List<K13>)"
                 if name in ("clone", "into", "into_inner", "inner"): return i1, recv, rty
         if rty == "PV" and na == 0:
@@ -4260,6 +4369,9 @@ class Translator:
                 r = self.fresh()
                 return i1 + i2 + [("bind", r, f"C13.Perm.at {recv} {a}")], r, "usize"
             if name == "dim" and na == 0: return i1, f"{recv}.dim", "usize"
+            if name == "clone" and na == 0: return i1, recv, rty
+        if rty == "PV" and name == "clone" and na == 0: return i1, recv, rty
+        if rty in self.mod.structs and name == "clone" and na == 0 and self.cfg.get("struct_params"): return i1, recv, rty
         if rty == "RG":
             if name == "contains" and na == 1:
                 i2, a, ta = self.tr(e.args[0], env)
@@ -4271,6 +4383,17 @@ class Translator:
         if rty.startswith("List<"):
             elt = rty[5:-1]
             if name == "len" and na == 0: return i1, f"(List.length {recv})", "usize"
+            if name == "is_empty" and na == 0: return i1, f"(List.isEmpty {recv})", "bool"
+            if name == "rev" and na == 0: return i1, f"(List.reverse {recv})", rty
+            if name == "fold" and na == 2 and e.args[1].kind == "closure":
+                i2, init, tinit = self.tr(e.args[0], env)
+                cname, cargs, cret, mon = self.closure_def(e.args[1], [tinit, elt], env)
+                if not self.compat(tinit, cret): raise Unsupported(f"`fold` closure returning {cret} for an accumulator of type {tinit} (line {line})")
+                call = "(" + " ".join([cname] + cargs) + ")"
+                if mon:
+                    r = self.fresh()
+                    return i1 + i2 + [("bind", r, f"List.foldlM {call} {init} {recv}")], r, tinit
+                return i1 + i2, f"(List.foldl {call} {init} {recv})", tinit
             if name == "flat_map" and na == 1 and e.args[0].kind == "closure":
                 cname, cargs, cret, mon = self.closure_def(e.args[0], [elt], env)
                 if mon or not cret.startswith("List<"): raise Unsupported(f"`flat_map` closure returning {cret} / panicking (line {line})")
@@ -4582,6 +4705,7 @@ def generate(src_text, src_label, target="bitseq"):
         stem = os.path.splitext(os.path.basename(srcs[k_]))[0] if cfg.get("free_fns") else None
         mod = parse_items(toks, mod, cfg["macros"], 0, stem)
     tr = Translator(mod, toks, allids, cfg)
+    tr.cur = Fn()
     parts = []
     # enums
     for name in sorted(mod.enums):
@@ -4616,7 +4740,8 @@ def generate(src_text, src_label, target="bitseq"):
         if cfg.get("hom") and all(re.fullmatch(r"PhantomData<.*>", t) for _, t in fs):
             mod.notes.append(f"struct {name}: only `PhantomData` fields (its functions are associated functions)")
             continue
-        lines = [f"/-- `struct {name}` -/", f"structure {name}S" + (" (α : Type) (m n : Nat)" if eo else "") + " where"]
+        lines = [f"/-- `struct {name}` -/", f"structure {name}S" + (" (α : Type) (m n : Nat)" if eo else "") +
+                 (" " + cfg["struct_params"] if cfg.get("struct_params") else "") + " where"]
         try:
             for f, t in fs:
                 if t in BADINT: raise Unsupported(f"struct {name}: field {f} of type {t}")
